@@ -127,12 +127,22 @@ impl IdStyle {
     }
 }
 
+/// abstract float n: n/2, except that |n| >= 1_000_000 stands for the whole number 10^(|n| - 1_000_000) (beyond the i64 range)
+pub fn float_of(n: i64) -> f64 {
+    if n.abs() >= 1_000_000 {
+        let f = 10f64.powi((n.abs() - 1_000_000) as i32);
+        if n < 0 { -f } else { f }
+    } else {
+        n as f64 / 2.0
+    }
+}
+
 pub fn value_of(v: &Val, style: IdStyle) -> DataValue {
     match v.t.as_str() {
         "null" => DataValue::Null,
         "str" => DataValue::String(style.conc(&v.s)),
         "int" => DataValue::Int(v.n as isize),
-        "float" => DataValue::Float(v.n as f64 / 2.0),
+        "float" => DataValue::Float(float_of(v.n)),
         "bool" => DataValue::Bool(v.n != 0),
         "list" => DataValue::List(v.l.iter().map(|x| value_of(x, style)).collect()),
         "datetime" => {
@@ -148,6 +158,10 @@ pub fn val_of(v: &DataValue, style: IdStyle) -> Val {
         DataValue::Null => Val::null(),
         DataValue::String(s) => Val { t: "str".into(), s: style.abs(s), n: 0, l: vec![] },
         DataValue::Int(n) => Val { t: "int".into(), s: String::new(), n: *n as i64, l: vec![] },
+        DataValue::Float(f) if f.abs() >= 1e15 && f.is_finite() && 10f64.powi(f.abs().log10().round() as i32) == f.abs() => {
+            let e = 1_000_000 + f.abs().log10().round() as i64;
+            Val { t: "float".into(), s: String::new(), n: if *f < 0.0 { -e } else { e }, l: vec![] }
+        }
         DataValue::Float(f) => {
             let n = (f * 2.0).round();
             if (n / 2.0 - f).abs() < 1e-9 {
